@@ -1346,7 +1346,40 @@ fn record(outp: &str, results: &str) {
         }
         strings.push(("mutated".into(), b));
     }
+    // shaped strings: random segment-length triples over the whole 2^18 space, random address nibbles, consistent
+    // or off-by-one HdrLen, cut at a random sub-extent boundary (+-1)
+    let n_shaped = if thorough { 40000 } else { 1500 };
+    for _ in 0..n_shaped {
+        let (dn, sn) = (rng.below(16) as u8, rng.below(16) as u8);
+        let pick = |rng: &mut vh_core::Rng| -> u32 { if rng.chance(1, 3) { *rng.pick(&[0u32, 1, 2, 31, 62, 63]) } else { rng.below(64) as u32 } };
+        let (s0, s1, s2) = (pick(&mut rng), pick(&mut rng), pick(&mut rng));
+        let a = 28 + nib_len(dn) + nib_len(sn);
+        let ninfo = (s0 > 0) as usize + (s1 > 0) as usize + (s2 > 0) as usize;
+        let c = a + 4 + 8 * ninfo + 12 * (s0 + s1 + s2) as usize;
+        let hl = match rng.below(8) { 0 => (c / 4).saturating_sub(1), 1 => c / 4 + 1, _ => c / 4 }.min(255);
+        let pl = rng.below(24) as usize;
+        let mut b = rng.bytes(c + pl);
+        b[0] = 0x0b;
+        b[4] = *rng.pick(&[17u8, 202, 6]);
+        b[5] = hl as u8;
+        b[6] = 0;
+        b[7] = pl as u8;
+        b[8] = 1;
+        b[9] = (dn << 4) | sn;
+        let v = (s0 << 12) | (s1 << 6) | s2;
+        b[a] = rng.below(256) as u8;
+        b[a + 1] = (v >> 16) as u8 & 3;
+        b[a + 2] = (v >> 8) as u8;
+        b[a + 3] = v as u8;
+        if rng.chance(1, 2) {
+            let bounds = [12usize, a, a + 4, a + 4 + 8 * ninfo, c, c + 4, c + 8, c + pl];
+            let cut = (*rng.pick(&bounds) + rng.below(3) as usize).saturating_sub(1).min(b.len());
+            b.truncate(cut);
+        }
+        strings.push(("shaped".into(), b));
+    }
     // random strings, half of them with a plausible first 12 bytes
+    let n_total = strings.len() + n_total / 2;
     while strings.len() < n_total {
         let len = if rng.chance(1, 10) { rng.below(1400) } else { rng.below(160) } as usize;
         let mut b = rng.bytes(len);
